@@ -511,6 +511,37 @@ theorem gen_dickson1Seq (ns : List Nat) (hne : ns ≠ []) (hpw : ns.Pairwise (·
       · intro a ha
         have := le_lastOrder ns hpw a ha
         omega)
+  | (
+      unfold Generated.C08.dickson1Seq
+      simp only [ofInt_eq, ofFrac_eq, Int.cast_one, Int.cast_zero, Int.cast_ofNat, Nat.cast_ofNat]
+      set ev : Nat → K := fun n => dickson1 n al x with hev
+      have h := RInv_zero ns ev
+      generalize hst : (ite (ns[0]? = some 0) _ _ : Rows K × Nat) = st
+      have h : RInv ns ev (0+1) st.1 st.2 := by rw [← hst]; exact RInv_step ns hpw ev 0 _ _ _ (by simp [hev, dickson1, dickPair]) h
+      obtain ⟨out0, k0⟩ := st
+      simp only [] at h ⊢
+      split
+      · exact RInv_done ns ev (0+1) out0 k0 h ‹_›
+      generalize hst : (ite (ns[k0]? = some 1) _ _ : Rows K × Nat) = st
+      have h : RInv ns ev (1+1) st.1 st.2 := by rw [← hst]; exact RInv_step ns hpw ev 1 _ _ _ (by simp [hev, dickson1, dickPair]) h
+      obtain ⟨out1, k1⟩ := st
+      simp only [] at h ⊢
+      split
+      · exact RInv_done ns ev (1+1) out1 k1 h ‹_›
+      refine RInv_finish ns ev (2 + ((lastOrder ns + 1) - 2).toNat) _ _ (forRange_induct'
+        (fun m s => RInv ns ev (2 + m) (Generated.C08.dickson1Seq_st_out s) (Generated.C08.dickson1Seq_st_min_i s) ∧ Generated.C08.dickson1Seq_st_Pnm1 s = ev (m+1) ∧ Generated.C08.dickson1Seq_st_Pnm2 s = ev m)
+        2 (lastOrder ns + 1) _ _ ?_ ?_).1 ?_
+      · exact ⟨h, by simp [hev, dickson1, dickPair], by simp [hev, dickson1, dickPair]⟩
+      · rintro m s ⟨hs, h1, h2⟩
+        dsimp only [Generated.C08.dickson1Seq_st_out, Generated.C08.dickson1Seq_st_min_i, Generated.C08.dickson1Seq_st_Pnm1, Generated.C08.dickson1Seq_st_Pnm2] at hs h1 h2 ⊢
+        have hi : (2 + (m:ℤ)).toNat = 2 + m := by omega
+        simp only [hi]
+        refine ⟨RInv_step ns hpw ev (2+m) _ _ _ (by rw [h1, h2, show 2 + m = m + 2 by omega]; simp only [hev, dickson1]; rw [dickPair_succ_succ]) hs, ?_, ?_⟩
+        · rw [h1, h2]; simp only [hev, dickson1]; rw [dickPair_succ_succ]
+        · exact h1
+      · intro a ha
+        have := le_lastOrder ns hpw a ha
+        omega)
 
 /-- the statement-by-statement translation of `dickson2_seq` (running index, conditional row writes, early returns, loop) returns
     `ns.map` of the model's single-order value for EVERY non-empty strictly ascending `ns` -/
@@ -547,6 +578,37 @@ theorem gen_dickson2Seq (ns : List Nat) (hne : ns ≠ []) (hpw : ns.Pairwise (·
         simp only [hi]
         rw [hj] at *
         refine ⟨(RInv_step3 ns hpw ev (2+m) _ _ _ (by rw [h1, h2, show 2 + m = m + 2 by omega]; simp only [hev, dickson2]; rw [dickPair_succ_succ]) hs).1, (RInv_step3 ns hpw ev (2+m) _ _ _ (by rw [h1, h2, show 2 + m = m + 2 by omega]; simp only [hev, dickson2]; rw [dickPair_succ_succ]) hs).2, ?_, ?_⟩
+        · rw [h1, h2]; simp only [hev, dickson2]; rw [dickPair_succ_succ]
+        · exact h1
+      · intro a ha
+        have := le_lastOrder ns hpw a ha
+        omega)
+  | (
+      unfold Generated.C08.dickson2Seq
+      simp only [ofInt_eq, ofFrac_eq, Int.cast_one, Int.cast_zero, Int.cast_ofNat, Nat.cast_ofNat]
+      set ev : Nat → K := fun n => dickson2 n al x with hev
+      have h := RInv_zero ns ev
+      generalize hst : (ite (ns[0]? = some 0) _ _ : Rows K × Nat) = st
+      have h : RInv ns ev (0+1) st.1 st.2 := by rw [← hst]; exact RInv_step ns hpw ev 0 _ _ _ (by simp [hev, dickson2, dickPair]) h
+      obtain ⟨out0, k0⟩ := st
+      simp only [] at h ⊢
+      split
+      · exact RInv_done ns ev (0+1) out0 k0 h ‹_›
+      generalize hst : (ite (ns[k0]? = some 1) _ _ : Rows K × Nat) = st
+      have h : RInv ns ev (1+1) st.1 st.2 := by rw [← hst]; exact RInv_step ns hpw ev 1 _ _ _ (by simp [hev, dickson2, dickPair]) h
+      obtain ⟨out1, k1⟩ := st
+      simp only [] at h ⊢
+      split
+      · exact RInv_done ns ev (1+1) out1 k1 h ‹_›
+      refine RInv_finish ns ev (2 + ((lastOrder ns + 1) - 2).toNat) _ _ (forRange_induct'
+        (fun m s => RInv ns ev (2 + m) (Generated.C08.dickson2Seq_st_out s) (Generated.C08.dickson2Seq_st_min_i s) ∧ Generated.C08.dickson2Seq_st_Pnm1 s = ev (m+1) ∧ Generated.C08.dickson2Seq_st_Pnm2 s = ev m)
+        2 (lastOrder ns + 1) _ _ ?_ ?_).1 ?_
+      · exact ⟨h, by simp [hev, dickson2, dickPair], by simp [hev, dickson2, dickPair]⟩
+      · rintro m s ⟨hs, h1, h2⟩
+        dsimp only [Generated.C08.dickson2Seq_st_out, Generated.C08.dickson2Seq_st_min_i, Generated.C08.dickson2Seq_st_Pnm1, Generated.C08.dickson2Seq_st_Pnm2] at hs h1 h2 ⊢
+        have hi : (2 + (m:ℤ)).toNat = 2 + m := by omega
+        simp only [hi]
+        refine ⟨RInv_step ns hpw ev (2+m) _ _ _ (by rw [h1, h2, show 2 + m = m + 2 by omega]; simp only [hev, dickson2]; rw [dickPair_succ_succ]) hs, ?_, ?_⟩
         · rw [h1, h2]; simp only [hev, dickson2]; rw [dickPair_succ_succ]
         · exact h1
       · intro a ha
@@ -602,7 +664,6 @@ theorem gen_jacobiSeq (ns : List Nat) (hne : ns ≠ []) (hpw : ns.Pairwise (· <
       · intro a ha
         have := le_lastOrder ns hpw a ha
         omega)
-
 
 /-- **the code of `jacobi_seq`, `hermite_He_seq`, `hermite_H_seq`, `laguerre_seq`, `dickson1_seq`, `dickson2_seq`**: for every
     non-empty strictly ascending order list, row `i` of the translated `*_seq` body is the translated single-order
